@@ -27,9 +27,12 @@ class HangGuard(BaseException):
 
 
 class RecStream:
-    def __init__(self, data, events, maxcalls=None, bursts=()):
+    def __init__(self, data, events, maxcalls=None, bursts=(), pauses=()):
         self.data = bytes(data)
-        self.bursts = sorted(b for b in bursts if 0 < b < len(self.data))  # a read never crosses one of these positions
+        # a growing stream (tailed log, serial port / socket with timeout): at each of these positions the stream has, for the moment,
+        # no more data - the read at that position returns nothing ONCE; afterwards the data continues
+        self.pauses = sorted(p for p in pauses if 0 < p < len(self.data))
+        self.bursts = sorted(set(b for b in bursts if 0 < b < len(self.data)) | set(self.pauses))  # a read never crosses one of these positions
         self.pos = 0
         self.events = events
         self.calls = 0
@@ -46,8 +49,17 @@ class RecStream:
                 return b
         return len(self.data)
 
+    def _paused(self):
+        if self.pauses and self.pauses[0] == self.pos:
+            self.pauses.pop(0)
+            return True
+        return False
+
     def read(self, n):
         self._tick()
+        if n > 0 and self._paused():
+            self.events.append({"t": "read", "n": n, "got": 0, "a": 0, "b": 0, "p": "", "fam": ""})
+            return b""
         d = self.data[self.pos:min(self.pos + max(n, 0), self._limit())]
         self.pos += len(d)
         self.events.append({"t": "read", "n": n, "got": len(d), "a": 0, "b": 0, "p": "", "fam": ""})
@@ -55,6 +67,9 @@ class RecStream:
 
     def readline(self):
         self._tick()
+        if self._paused():
+            self.events.append({"t": "readline", "n": 0, "got": 0, "a": 0, "b": 0, "p": "", "fam": ""})
+            return b""
         lim = self._limit()
         j = self.data.find(b"\n", self.pos, lim)
         d = self.data[self.pos:lim] if j < 0 else self.data[self.pos:j + 1]
@@ -150,6 +165,9 @@ class RecPipe(_io.BufferedReader):
         return d
 
 
+_KEEP = []
+
+
 class _SockView:
     """position bookkeeping for a reader that owns a socket: pos = bytes received - bytes still in the wrapper's (public) buffer"""
 
@@ -229,7 +247,7 @@ def direct_parse(raw, msgmode=0, validate=1, pbf=1, labelmsm=1):
     return True, digest(m), ""
 
 
-def run_reader(data, filt=7, quit=1, parsing=True, handler=True, msgmode=0, validate=1, pbf=1, keep_reads=True, intern=None, labelmsm=1, bursts=(), kind="min", poll=False):
+def run_reader(data, filt=7, quit=1, parsing=True, handler=True, msgmode=0, validate=1, pbf=1, keep_reads=True, intern=None, labelmsm=1, bursts=(), kind="min", poll=False, pauses=()):
     """One complete iteration of UBXReader over `data`.  Returns the run record."""
     from pyubx2 import UBXReader
 
@@ -248,7 +266,7 @@ def run_reader(data, filt=7, quit=1, parsing=True, handler=True, msgmode=0, vali
     elif kind == "pipe" and not bursts:
         stream = RecPipe(data, events)
     else:
-        stream = RecStream(data, events, bursts=bursts)
+        stream = RecStream(data, events, bursts=bursts, pauses=pauses)
     errs = []
 
     def on_error(err):
@@ -290,11 +308,19 @@ def run_reader(data, filt=7, quit=1, parsing=True, handler=True, msgmode=0, vali
         if sockview is not None:
             sockview.rdr = rdr
             stream = sockview
+            _KEEP.append(rdr)  # earlier readers / connections stay referenced while later ones are opened (a reconnecting application)
+            del _KEEP[:-2]
         it = iter(rdr)
+        restarts = 0
         while True:
             try:
                 raw, parsed = next(it)
             except StopIteration:
+                if pauses and stream.pos < len(data) and restarts < len(pauses) + 1:
+                    # the stream has grown since iteration stopped: the application iterates the same reader again
+                    restarts += 1
+                    it = iter(rdr)
+                    continue
                 events.append({"t": "eof", "n": 0, "got": 0, "a": 0, "b": stream.pos, "p": "", "fam": ""})
                 # a polling caller asks again after end-of-stream: nothing may come back (a late item would be invented / duplicated data)
                 nev = len(events)
